@@ -70,3 +70,9 @@ CHECKS["C07"] = (
     "Held on the executions observed: every mutually supported (version TLS 1.0-1.3, cipher suite, server key type, group) cell with client auth, ALPN, EMS/EtM off, HelloRetryRequest, user record sizes and session-ID / ticket / TLS 1.3 ticket resumption in both roles: handshakes complete, both sides report the same version, suite id, ALPN, resumption status and certificates, boundary-size payloads arrive intact both ways, close_notify is exchanged cleanly; cells with an empty intersection fail.",
     "Limited to what Python 3.12's ssl exposes of OpenSSL 3.0 (no SSLv3/RC4/3DES/SRP/TLS1.3-CCM/record_size_limit/heartbeat/NPN/KeyUpdate/external PSK; DSA not configurable); TLS 1.3 suites forced from the tlslite side.",
     "DESIGN.md section 3, C07")
+CHECKS["C17"] = (
+    "fault_enumeration",
+    "runtime monitoring with fault enumeration: a transport fault injected at every recv/send call index of scripted connections (whole-flight and 7-byte-chunk transports), alerts and close variants from a key-holding peer; post-state monitors on both endpoints",
+    "Held on the fault points enumerated: for every listed script (all scenarios in the thorough tier) every single (side, recv|send, call index, fault kind) point is run, plus fault pairs, closeSocket/ignoreAbruptClose variants, fatal/warning/close_notify alerts at handshake and data points, orderly/simultaneous/EOF closes; the interrupted call raises a socket or abrupt-close error (or the peer's real alert), the connection is closed, no resumable session or completed handshake survives a mid-handshake fault, later read/write behave as closed, orderly close keeps the session resumable.",
+    "Faults are injected at the socket API boundary; resumability after a data-phase transport fault is recorded, not judged.",
+    "DESIGN.md section 3, C17")
